@@ -294,7 +294,12 @@ class StackPartition(Concat):
         for df in self._frames:
             try:
                 check_meta(df._meta, self._meta)
-                match = True
+                # check_meta does not look at index names and series names
+                match = list(df._meta.index.names) == list(
+                    self._meta.index.names
+                ) and getattr(df._meta, "name", None) == getattr(
+                    self._meta, "name", None
+                )
             except (ValueError, TypeError):
                 match = False
 
